@@ -44,8 +44,8 @@ Fixpoint convert_loop (w : world) (dp : disp) (coins : list coin) (tsei tusd : N
 Definition set_dp (d : disp) owner hubaddr rewardaddr bd keeper rate swap denoms oracle newowner :=
   mkDisp owner hubaddr rewardaddr (dp_std d) bd keeper rate swap denoms oracle newowner.
 
-Definition disp_execute (w : world) (self sender : addr) (m : disp_msg) : result (world * list cmsg) :=
-  do dp <- w_disp w;
+Definition disp_execute (w : world) (dp : disp) (self sender : addr) (m : disp_msg)
+  : result (disp * list cmsg) :=
   match m with
   | DSwap bb stb =>
       check sender =? dp_hub dp;
@@ -58,7 +58,7 @@ Definition disp_execute (w : world) (self sender : addr) (m : disp_msg) : result
       do info <- swap_info (dp_std dp) (dp_bd dp) stb bb tsei tusd ust2sei sei2ust;
       let '(od, oa, ask) := info in
       let msgs' := if oa =? 0 then msgs else msgs ++ [m_swap (dp_swap dp) (od, oa) ask None] in
-      Some (w, msgs')
+      Some (dp, msgs')
   | DDispatch =>
       check sender =? dp_hub dp;
       let st := bal (w_env w) self (dp_std dp) in
@@ -73,37 +73,37 @@ Definition disp_execute (w : world) (self sender : addr) (m : disp_msg) : result
                   Some (MBank (dp_keeper dp) [(dp_std dp, k)] ::
                         (if rebond =? 0 then [] else
                            [MWasm (dp_hub dp) (WHub HBondRewards) [(dp_std dp, rebond)]])));
-      Some (w, m1 ++ m2 ++ [MWasm (dp_reward dp) (WHub (HUpdateGlobal 0)) []])
+      Some (dp, m1 ++ m2 ++ [MWasm (dp_reward dp) (WHub (HUpdateGlobal 0)) []])
   | DConfig hubaddr rewardaddr std bd keeper rate =>
       check sender =? dp_owner dp;
       check (match std with Some _ => false | None => true end);
       check (match rate with Some r => r <=? D | None => true end);
-      Some (set_disp w (set_dp dp (dp_owner dp)
+      Some (set_dp dp (dp_owner dp)
                           (match hubaddr with Some a => a | None => dp_hub dp end)
                           (match rewardaddr with Some a => a | None => dp_reward dp end)
                           (match bd with Some x => x | None => dp_bd dp end)
                           (match keeper with Some a => a | None => dp_keeper dp end)
                           (match rate with Some x => x | None => dp_rate dp end)
-                          (dp_swap dp) (dp_denoms dp) (dp_oracle dp) (dp_newowner dp)), [])
+                          (dp_swap dp) (dp_denoms dp) (dp_oracle dp) (dp_newowner dp), [])
   | DSetOwner a =>
       check sender =? dp_owner dp;
-      Some (set_disp w (set_dp dp (dp_owner dp) (dp_hub dp) (dp_reward dp) (dp_bd dp) (dp_keeper dp)
-                               (dp_rate dp) (dp_swap dp) (dp_denoms dp) (dp_oracle dp) a), [])
+      Some (set_dp dp (dp_owner dp) (dp_hub dp) (dp_reward dp) (dp_bd dp) (dp_keeper dp)
+                               (dp_rate dp) (dp_swap dp) (dp_denoms dp) (dp_oracle dp) a, [])
   | DAccept =>
       check sender =? dp_newowner dp;
-      Some (set_disp w (set_dp dp (dp_newowner dp) (dp_hub dp) (dp_reward dp) (dp_bd dp) (dp_keeper dp)
-                               (dp_rate dp) (dp_swap dp) (dp_denoms dp) (dp_oracle dp) (dp_newowner dp)), [])
+      Some (set_dp dp (dp_newowner dp) (dp_hub dp) (dp_reward dp) (dp_bd dp) (dp_keeper dp)
+                               (dp_rate dp) (dp_swap dp) (dp_denoms dp) (dp_oracle dp) (dp_newowner dp), [])
   | DSwapContract a =>
       check dp_owner dp =? sender;
-      Some (set_disp w (set_dp dp (dp_owner dp) (dp_hub dp) (dp_reward dp) (dp_bd dp) (dp_keeper dp)
-                               (dp_rate dp) a (dp_denoms dp) (dp_oracle dp) (dp_newowner dp)), [])
+      Some (set_dp dp (dp_owner dp) (dp_hub dp) (dp_reward dp) (dp_bd dp) (dp_keeper dp)
+                               (dp_rate dp) a (dp_denoms dp) (dp_oracle dp) (dp_newowner dp), [])
   | DSwapDenom d add =>
       check dp_owner dp =? sender;
       let ds := if add then dp_denoms dp ++ [d] else filter (fun x => negb (x =? d)) (dp_denoms dp) in
-      Some (set_disp w (set_dp dp (dp_owner dp) (dp_hub dp) (dp_reward dp) (dp_bd dp) (dp_keeper dp)
-                               (dp_rate dp) (dp_swap dp) ds (dp_oracle dp) (dp_newowner dp)), [])
+      Some (set_dp dp (dp_owner dp) (dp_hub dp) (dp_reward dp) (dp_bd dp) (dp_keeper dp)
+                               (dp_rate dp) (dp_swap dp) ds (dp_oracle dp) (dp_newowner dp), [])
   | DOracle a =>
       check dp_owner dp =? sender;
-      Some (set_disp w (set_dp dp (dp_owner dp) (dp_hub dp) (dp_reward dp) (dp_bd dp) (dp_keeper dp)
-                               (dp_rate dp) (dp_swap dp) (dp_denoms dp) a (dp_newowner dp)), [])
+      Some (set_dp dp (dp_owner dp) (dp_hub dp) (dp_reward dp) (dp_bd dp) (dp_keeper dp)
+                               (dp_rate dp) (dp_swap dp) (dp_denoms dp) a (dp_newowner dp), [])
   end.
